@@ -247,6 +247,21 @@ def e2e_cases(ctx, rng, count):
             ast_ = now.replace(microsecond=0) - datetime.timedelta(seconds=rng.choice([9, 12, 20, 31, 45, 70]))
             start = "pow2"
             opts.setdefault("depth", rng.choice(["30", "60", "120"]))
+        if i % 5 == 2 and start != "pow2":
+            # calendar boundaries: the symbolic starts shortly after the instant they resolve to (where the
+            # code moves availabilityStartTime back by a day), with a SegmentTimeline and with $Number$
+            cal = [("today", (5, 1, 0, 0, 30, 500000)), ("month", (3, 1, 8, 0, 30, 500000)),
+                   ("year", (1, 1, 12, 0, 7, 300000)), ("today", (12, 31, 0, 0, 59, 999999)),
+                   ("month", (1, 1, 0, 0, 1, 0)), ("year", (1, 1, 0, 0, 0, 250000)),
+                   ("now", (2, 29, 23, 59, 59, 900000))][(i // 5) % 7]
+            start = cal[0]
+            mo, d, h, mi, se, us = cal[1]
+            now = datetime.datetime(2024, mo, d, h, mi, se, us, tzinfo=datetime.timezone.utc)
+            man = "hand_made.mpd"
+            if (i // 35) % 2 == 0:
+                opts["timeline"] = "1"
+            else:
+                opts.pop("timeline", None)
         if start == "pow2":
             opts["start"] = ast_.strftime("%Y-%m-%dT%H:%M:%SZ")
         elif start == "explicit":
@@ -260,7 +275,8 @@ def e2e_cases(ctx, rng, count):
                 opts["start"] = st_.strftime("%Y-%m-%dT%H:%M:%SZ")
         else:
             opts["start"] = start
-        q = "&".join(f"{k}={v}" for k, v in opts.items())
+        # (`year` is the server default: the calendar cases leave it out of the URL half of the time)
+        q = "&".join(f"{k}={v}" for k, v in opts.items() if not (k == "start" and v == "year" and i % 10 == 2))
         out.append((stream, f"/dash/live/{stream}/{man}?{q}", now, opts))
     return out
 
